@@ -136,6 +136,8 @@ def run(rep, tier):
         run_newtype(rep, prog, new, into)
     with rep.part('binary map keys'):
         run_bytes_keys(rep, prog)
+    with rep.part('one-entry objects'):
+        run_map_identity(rep, prog)
     # twins
     ops = TWIN_OPS
     res = replay(ops)
@@ -337,6 +339,83 @@ def run_bytes_keys(rep, prog):
     for fail in battery_bytes_keys():
         rep.violation('C13:native-twin:bytes-key', f'native twin: {fail}', {'native': fail})
     rep.replayed += len(BYTES_KEY_OPS)
+
+
+MAGIC_K = 32
+
+
+def run_map_identity(rep, prog):
+    """a JSON object with one member parsed into Any stays that object: AnyVisitor::visit_map on a one-entry document with a symbolic
+    key of <= 32 bytes and a symbolic string value of <= 4 bytes yields Any(Map{key: value}) -- no key and no value text is special"""
+    it = mk(prog)
+    dec = Decider(rep, it)
+    vm = [k for k in find_fns(prog, 'visit_map', inpath='conjure_object::any::de::<impl') if 'AnyVisitor' in prog.fns[k].args[0][1]]
+    if len(vm) != 1:
+        raise Inconclusive(f'C13 harness: AnyVisitor::visit_map not unique: {vm}')
+    st = St()
+    kp, ks = sym_str(st, 'mapkey', MAGIC_K)
+    vp, vs = sym_str(st, 'mapval', 4)
+    inner = lambda s_: Agg(ANY, (it.mk_enum('conjure_object::any::Inner', 'String', s_),))
+    cell = st.ref(0)
+
+    def T_next_entry(it_, ctx, args, st_):
+        pos = st_.deref(cell)
+        st_.write(cell, pos + 1)
+        yield st_, it_.ok(it_.some(Agg('tuple', (inner(ks), inner(vs)))) if pos == 0 else it_.none)
+
+    def T_next_key(it_, ctx, args, st_):
+        pos = st_.deref(cell)
+        yield st_, it_.ok(it_.some(inner(ks)) if pos == 0 else it_.none)
+
+    def T_next_value(it_, ctx, args, st_):
+        st_.write(cell, st_.deref(cell) + 1)
+        yield st_, it_.ok(inner(vs))
+    it.tmodels[('OneEntryMap', 'MapAccess', 'next_entry')] = T_next_entry
+    it.tmodels[('OneEntryMap', 'MapAccess', 'next_key')] = T_next_key
+    it.tmodels[('OneEntryMap', 'MapAccess', 'next_value')] = T_next_value
+    it.tmodels[('OneEntryMap', 'MapAccess', 'size_hint')] = lambda it_, ctx, args, st_: iter([(st_, it_.some(bv(1)))])
+    vis = [k for k in prog.fns if k.endswith('any::de::AnyVisitor')]
+    np_ = 0
+    for s2, rv in it.run(vm[0], [Agg('conjure_object::any::de::AnyVisitor', ()), Agg('OneEntryMap', ())], st, {'A': ('path', 'OneEntryMap', ())}):
+        np_ += 1
+        rep.states += 1
+        if is_abnormal(rv):
+            rep.inconc(f'C13 map identity: abnormal outcome {rv!r:.120}')
+            continue
+        okp = it.payload(rv, 'Ok')
+        bad = it.variant_of(rv, 'Err')
+        if okp is not None:
+            a = okp.fields[0]
+            inn = a.fields[0] if isinstance(a, Agg) and a.fields else None
+            if not isinstance(inn, Enum):
+                bad = z3.BoolVal(True)
+            else:
+                mp = it.payload(inn, 'Map')
+                is_map = it.variant_of(inn, 'Map')
+                same = z3.BoolVal(False)
+                if mp is not None:
+                    m_ = mp.fields[0]
+                    m_ = s2.deref_all(m_) if isinstance(m_, Ptr) else m_
+                    if isinstance(m_, Agg) and len(m_.fields) == 1:
+                        m_ = m_.fields[0]
+                    if isinstance(m_, Seq) and len(m_.items) == 1:
+                        k_, v_ = m_.items[0].fields
+                        same = z3.And(val_eq(k_, inner(ks)), val_eq(v_, inner(vs)))
+                bad = z3.Or(bad, z3.Not(is_map), z3.Not(same))
+        m = dec.decide(f'map-identity:path{np_}:one-entry-object-stays-that-object', s2, bad, key_bytes=MAGIC_K)
+        if m is not None:
+            key, val = model_bytes(m, ks), model_bytes(m, vs)
+            doc = json.dumps({key.decode('utf-8', 'replace'): val.decode('utf-8', 'replace')})
+            op = {'op': 'any_json', 'doc': doc}
+            r, r_rel = replay([op])[0], replay([op], 'release')[0]
+            rep.replayed += 1
+            if not r.get('same') and not r_rel.get('same'):
+                rep.violation('C13:map-identity', f'the JSON object {doc} does not survive the Any carrier: native {r}', {'op': op, 'native': r})
+            else:
+                rep.inconc(f'model mismatch C13 map identity {doc}: native {r}')
+    if not np_:
+        rep.inconc('vacuity: C13 map identity has no outcome')
+    finish_engine(rep, it)
 
 
 def run_visitor_identity(rep, prog, ser_fn):
